@@ -306,6 +306,69 @@ fn check_c05(d: &Doc) -> Result<(), Fail> {
     Ok(())
 }
 
+
+// ---------------------------------------------------------------------------------------------------------
+// C07: wrap-and-sort of deb822 documents under a grid of settings
+fn check_c07(d: &Doc) -> Result<(), Fail> {
+    use deb822_lossless::{Deb822, Indentation, Paragraph};
+    let text = doc_text(d);
+    let doc = match Deb822::from_str(&text) { Ok(x) => x, Err(_) => return Ok(()) };
+    let want: Vec<Vec<(String, Vec<String>)>> = d.paras.iter().map(|p| p.fields.iter().map(|f| {
+        let mut ls: Vec<String> = Vec::new();
+        if !f.first.trim().is_empty() { ls.push(f.first.trim().to_string()); }
+        for k in &f.conts { if !k.text.trim().is_empty() { ls.push(k.text.trim().to_string()); } }
+        (f.name.clone(), ls) }).collect()).collect();
+    let lines_of = |v: &str| -> Vec<String> { v.lines().map(|l| l.trim().to_string()).filter(|l| !l.is_empty()).collect() };
+    let content = |x: &Deb822| -> Vec<Vec<(String, Vec<String>)>> { x.paragraphs().map(|p| p.items().map(|(k, v)| (k, lines_of(&v))).collect()).collect() };
+    let comments = |t: &str| -> Vec<String> { let mut c: Vec<String> = t.lines().filter(|l| l.starts_with('#')).map(|l| l.to_string()).collect(); c.sort(); c };
+    for (ind, width) in [(Indentation::Spaces(1), Some(1usize)), (Indentation::Spaces(4), Some(4)), (Indentation::FieldNameLength, None)] {
+        for iel in [false, true] { for mll in [None, Some(12usize), Some(200)] { for sort in [false, true] {
+            let shown = format!("{:?} with indentation {:?}, immediate_empty_line {}, max_line_length_one_liner {:?}, sorted {}", text, width, iel, mll, sort);
+            // listed known finding (class hash-first-line-moved): with immediate_empty_line a multi-line value whose first line
+            // begins with '#' is moved to a continuation line, where the reader takes it for a comment
+            if iel && d.paras.iter().any(|p| p.fields.iter().any(|f| f.first.trim_start().starts_with('#') && !f.conts.is_empty())) {
+                anytext::note_known_pub("C07:hash-first-line-moved", "\"A:#\\n c\\n\" with immediate_empty_line prints \"A:\\n #\\n c\\n\": the line \"#\" is read back as a comment");
+                continue;
+            }
+            let by_key = |a: &deb822_lossless::lossless::Entry, b: &deb822_lossless::lossless::Entry| a.key().cmp(&b.key());
+            let ident = |_k: &str, v: &str| v.to_string();
+            let sorted_items = |p: &Paragraph| { let mut v: Vec<(String, String)> = p.items().collect(); v.sort(); v };
+            // (a comparator that depends on field names and values only, not on their order)
+            let by_first = |a: &Paragraph, b: &Paragraph| sorted_items(a).cmp(&sorted_items(b));
+            let run = |x: &Deb822| -> Deb822 {
+                // the sorted runs also sort the paragraphs (by their first field) and pass the identity formatter
+                let ws = |p: &Paragraph| -> Paragraph { p.wrap_and_sort(ind, iel, mll, if sort { Some(&by_key) } else { None }, if sort { Some(&ident) } else { None }) };
+                x.wrap_and_sort(if sort { Some(&by_first) } else { None }, Some(&ws))
+            };
+            let out = match std::panic::catch_unwind(std::panic::AssertUnwindSafe(|| run(&doc))) { Ok(o) => o, Err(_) => report!("C07", shown, "wrap_and_sort panics", "a document".to_string(), "panic".to_string()) };
+            let t2 = out.to_string();
+            let back = match Deb822::from_str(&t2) { Ok(b) => b, Err(e) => report!("C07", shown, "the reformatted document does not parse strictly", "Ok".to_string(), format!("{:?} for {:?}", e, t2)) };
+            let mut expect = want.clone();
+            if sort {
+                // paragraphs by their first field (name, value as the reader shows it), stable; then the fields by name, stable
+                let firsts: Vec<Vec<(String, String)>> = doc.paragraphs().map(|p| { let mut v: Vec<(String, String)> = p.items().collect(); v.sort(); v }).collect();
+                let mut idx: Vec<usize> = (0..expect.len()).collect();
+                idx.sort_by(|a, b| firsts[*a].cmp(&firsts[*b]));
+                expect = idx.into_iter().map(|i| expect[i].clone()).collect();
+                for p in expect.iter_mut() { p.sort_by(|a, b| a.0.cmp(&b.0)); }
+            }
+            if content(&back) != expect { report!("C07", shown, "the reformatted document does not keep every paragraph and field with its non-blank value lines", format!("{:?}", expect), format!("{:?} from {:?}", content(&back), t2)); }
+            if content(&out) != content(&back) { report!("C07", shown, "the returned object reports other content than its printed text", format!("{:?}", content(&back)), format!("{:?}", content(&out))); }
+            if comments(&t2) != comments(&text) { report!("C07", shown, "a comment is lost, changed or no longer on a line of its own", format!("{:?}", comments(&text)), format!("{:?} in {:?}", comments(&t2), t2)); }
+            if let Some(w) = width {
+                for l in t2.lines() { if l.starts_with(' ') || l.starts_with('\t') {
+                    let lead = l.len() - l.trim_start().len();
+                    if lead != w { report!("C07", shown, "a continuation line is not indented by exactly the requested width", format!("{} columns", w), format!("{} columns in {:?}", lead, t2)); }
+                } }
+            }
+            if t2.contains("\n\n\n") { report!("C07", shown, "paragraphs are separated by more than one blank line", "exactly one".to_string(), format!("{:?}", t2)); }
+            let again = run(&back).to_string();
+            if again != t2 { report!("C07", shown, "reformatting the result again with the same settings changes it", format!("{:?}", t2), format!("{:?}", again)); }
+        } } }
+    }
+    Ok(())
+}
+
 /// smaller well-formed documents obtained by deleting one element
 fn shrinks(d: &Doc) -> Vec<Doc> {
     let mut out = Vec::new();
@@ -342,7 +405,7 @@ mod rel {
     use std::str::FromStr;
     const NAMES: &[&str] = &["foo", "lib-x1.2+y", "a", "0ad", "g++"];
     const QUALS: &[&str] = &["any", "native", "amd64"];
-    const VERSIONS: &[&str] = &["1", "1.0-1", "2:1.0~rc1-3", "0.9.8+dfsg-1.1", "1:0"];
+    const VERSIONS: &[&str] = &["1", "1.0-1", "2:1.0~rc1-3", "0.9.8+dfsg-1.1", "1:0", "1.10", "1.9", "1.0~rc1", "1.0"];
     const ARCHS: &[&str] = &["amd64", "!i386", "linux-any", "!hurd-any", "any-arm64"];
     const PROFS: &[&str] = &["nocheck", "cross", "stage1", "pkg.foo.bar"];
     fn gen(r: &mut Rng) -> Relation {
@@ -386,9 +449,9 @@ mod rel {
         let mut n = 0;
         let wsp: &[&str] = &["", " ", "  ", "\n ", " \n  "];
         for _ in 0..3000 * crate::scale() {
-            let ne = 1 + r.below(3);
-            let rels = Relations((0..ne).map(|_| { let na = 1 + r.below(2); (0..na).map(|_| gen(&mut r)).collect() }).collect());
-            let substvar = r.below(4) == 0;
+            let ne = r.below(4);
+            let rels = Relations((0..ne).map(|_| { let na = 1 + r.below(3); (0..na).map(|_| gen(&mut r)).collect() }).collect());
+            let substvar = r.below(4) == 0 || ne == 0;
             // messy text
             let mut t = String::new();
             t.push_str(*r.pick(wsp));
@@ -430,9 +493,24 @@ mod rel {
             if text.contains('\n') || text.contains("  ") || text.starts_with(' ') || text.ends_with(' ') || text.contains(" ,") || text.contains(",,") || text.ends_with(',') {
                 return Err(Fail { prop: "C13".into(), input: shown, what: "the normalised text is not single-line canonical".into(), expected: "entries joined by ', ', alternatives by ' | ', single spaces".into(), got: text });
             }
-            // idempotent
+            // sorted: names do not decrease; relations of one name with the same operator are in Debian version order
+            let key = |x: &debian_control::lossless::relations::Relation| (x.name(), x.version());
+            let ordered = |a: &(String, Option<(VersionConstraint, debversion::Version)>), b: &(String, Option<(VersionConstraint, debversion::Version)>)| -> bool {
+                if a.0 != b.0 { return a.0 < b.0; }
+                match (&a.1, &b.1) { (Some((ca, va)), Some((cb, vb))) if ca == cb => va <= vb, _ => true }
+            };
+            for e in back.entries() {
+                let ks: Vec<_> = e.relations().map(|x| key(&x)).collect();
+                for w in ks.windows(2) { if !ordered(&w[0], &w[1]) { return Err(Fail { prop: "C13".into(), input: shown, what: "the alternatives of an entry are not sorted (name, then Debian version order)".into(), expected: "sorted".into(), got: text }); } }
+            }
+            let firsts: Vec<_> = back.entries().filter_map(|e| e.relations().next().map(|x| key(&x))).collect();
+            for w in firsts.windows(2) { if !ordered(&w[0], &w[1]) { return Err(Fail { prop: "C13".into(), input: shown, what: "the entries are not sorted (by their first alternative: name, then Debian version order)".into(), expected: "sorted".into(), got: text }); } }
+            // idempotent: on the re-read field and on the returned object itself
             let again = back.wrap_and_sort().to_string();
             if again != text { return Err(Fail { prop: "C13".into(), input: shown, what: "normalising the result again changes it".into(), expected: text, got: again }); }
+            let (ll2, _) = LRelations::parse_relaxed(&t, true);
+            let direct = ll2.wrap_and_sort().wrap_and_sort().to_string();
+            if direct != text { return Err(Fail { prop: "C13".into(), input: shown, what: "normalising the returned object again (without re-reading it) changes it".into(), expected: text, got: direct }); }
         }
         Ok(n)
     }
@@ -451,8 +529,22 @@ mod rel {
             // start: a well-formed field of 0..3 entries, canonical layout
             let ne = r.below(4);
             let rels = Relations((0..ne).map(|_| { let na = 1 + r.below(2); (0..na).map(|_| { let mut g = gen(&mut r); if g.architectures.as_ref().map(|a| a.is_empty()).unwrap_or(false) { g.architectures = None; } g }).collect() }).collect());
-            let start = rels.to_string();
-            let mut field = match LRelations::from_str(&start) { Ok(f) => f, Err(_) => continue };
+            let wsp: &[&str] = &["", " ", "  ", "\n ", " \n  "];
+            let mut start = String::new();
+            if r.below(3) == 0 {
+                // arbitrary layout: whitespace / newlines around separators, empty entries, leading / trailing commas
+                start.push_str(*r.pick(wsp));
+                if r.below(4) == 0 { start.push_str(", "); }
+                for (i, e) in rels.0.iter().enumerate() {
+                    if i > 0 { start.push_str(*r.pick(wsp)); start.push(','); if r.below(4) == 0 { start.push_str(" ,"); } start.push_str(*r.pick(wsp)); }
+                    for (j, a) in e.iter().enumerate() { if j > 0 { start.push_str(*r.pick(wsp)); start.push('|'); start.push_str(*r.pick(wsp)); } start.push_str(&a.to_string()); }
+                }
+                if r.below(5) == 0 { start.push(','); }
+            } else { start = rels.to_string(); }
+            let with_substvar = r.below(6) == 0;
+            if with_substvar { if !rels.0.is_empty() { start.push_str(", "); } start.push_str("${misc:Depends}"); }
+            let (mut field, perrs) = LRelations::parse_relaxed(&start, true);
+            if !perrs.is_empty() { continue; }
             let mut model: Vec<Vec<String>> = rels.0.iter().map(|e| e.iter().map(|a| a.to_string()).collect()).collect();
             let mut hist: Vec<String> = Vec::new();
             for _ in 0..1 + r.below(3) {
@@ -472,7 +564,15 @@ mod rel {
                         2 => { if model.is_empty() { return None; } let i = r.below(model.len()); field.replace(i, mk_entry(&newtext, how)); model[i] = vec![newtext.clone()]; Some(format!("replace({}, {:?}) [way {}]", i, newtext, how)) }
                         3 => { if model.is_empty() { return None; } let i = r.below(model.len()); field.remove_entry(i); model.remove(i); Some(format!("remove_entry({})", i)) }
                         4 => { if model.is_empty() { return None; } let i = r.below(model.len()); let mut e = field.get_entry(i).unwrap(); e.push(LRelation::from_str(&newtext).unwrap()); model[i].push(newtext.clone()); Some(format!("get_entry({}).push({:?})", i, newtext)) }
-                        5 => { if model.is_empty() { return None; } let i = r.below(model.len()); if model[i].len() < 2 { return None; } let j = r.below(model[i].len()); let e = field.get_entry(i).unwrap(); e.remove_relation(j); model[i].remove(j); Some(format!("get_entry({}).remove_relation({})", i, j)) }
+                        5 => { if model.is_empty() { return None; } let i = r.below(model.len());
+                               if how == 1 {
+                                   // an entry built from a list of relations, put into the field, then one alternative removed
+                                   let a = gen(&mut r); let b = gen(&mut r);
+                                   let (ta, tb) = (a.to_string(), b.to_string());
+                                   field.replace(i, LEntry::from(vec![LRelation::from_str(&ta).unwrap(), LRelation::from_str(&tb).unwrap(), LRelation::from_str(&newtext).unwrap()]));
+                                   model[i] = vec![ta, tb, newtext.clone()];
+                               }
+                               if model[i].len() < 2 { return None; } let j = r.below(model[i].len()); let e = field.get_entry(i).unwrap(); e.remove_relation(j); model[i].remove(j); Some(format!("get_entry({}).remove_relation({}){}", i, j, if how == 1 { " on an entry built from a list" } else { "" })) }
                         6 => { if model.is_empty() { return None; } let i = r.below(model.len()); let j = r.below(model[i].len()); let e = field.get_entry(i).unwrap(); let mut x = e.get_relation(j).unwrap();
                                let mut l = Relation { name: x.name(), archqual: x.archqual(), version: x.version(), architectures: x.architectures().map(|a| a.collect()), profiles: x.profiles().collect() };
                                l.version = newrel.version.clone(); x.set_version(newrel.version.clone()); model[i][j] = l.to_string(); Some(format!("relation({},{}).set_version({:?})", i, j, newrel.version.as_ref().map(|v| (v.0.to_string(), v.1.to_string())))) }
@@ -499,7 +599,9 @@ mod rel {
                 hist.push(desc);
                 let shown = format!("{:?} then {:?}", start, hist);
                 let text = field.to_string();
-                let back = match LRelations::from_str(&text) { Ok(b) => b, Err(e) => return Err(Fail { prop: "C11".into(), input: shown, what: format!("after {} the field does not parse strictly", ops[op]), expected: "Ok".into(), got: format!("{:?} for {:?}", e, text) }) };
+                let (back, berrs) = LRelations::parse_relaxed(&text, true);
+                if !berrs.is_empty() { return Err(Fail { prop: "C11".into(), input: shown, what: format!("after {} the field does not parse strictly", ops[op]), expected: "no errors".into(), got: format!("{:?} for {:?}", berrs, text) }); }
+                if with_substvar && back.substvars().collect::<Vec<_>>() != vec!["${misc:Depends}".to_string()] { return Err(Fail { prop: "C11".into(), input: shown, what: format!("after {} the substitution variable is no longer an item of its own", ops[op]), expected: "[\"${misc:Depends}\"]".into(), got: format!("{:?} in {:?}", back.substvars().collect::<Vec<_>>(), text) }); }
                 if view(&back) != model { return Err(Fail { prop: "C11".into(), input: shown, what: format!("after {} the printed field does not parse to the list model", ops[op]), expected: format!("{:?}", model), got: format!("{:?} from {:?}", view(&back), text) }); }
                 if view(&field) != model { return Err(Fail { prop: "C11".into(), input: shown, what: format!("after {} the live field does not show the list model", ops[op]), expected: format!("{:?}", model), got: format!("{:?}", view(&field)) }); }
             }
@@ -718,6 +820,7 @@ mod anytext {
     }
     /// failures of a class listed in /verif/known-findings.txt: remembered (first example per class), printed at the end
     pub static KNOWN: std::sync::Mutex<Vec<(String, String)>> = std::sync::Mutex::new(Vec::new());
+    pub fn note_known_pub(class: &str, example: &str) { note_known(class, example) }
     fn note_known(class: &str, example: &str) {
         let mut k = KNOWN.lock().unwrap();
         if !k.iter().any(|x| x.0 == class) { k.push((class.to_string(), example.to_string())); }
@@ -1218,6 +1321,7 @@ fn main() {
         "C08" => check_c08,
         "C04" => check_c04,
         "C05" => check_c05,
+        "C07" => check_c07,
         _ => { eprintln!("no falsifier for {}", prop); std::process::exit(3); }
     };
     let progress = std::env::var("VWIT_PROGRESS").ok();
@@ -1261,5 +1365,6 @@ fn main() {
             fail.print_and_exit();
         }
     }
-    eprintln!("vwit {}: no failing input among {} documents", prop, docs.len());
+    anytext::print_known();
+    eprintln!("vwit {}: no unlisted failing input among {} documents", prop, docs.len());
 }
